@@ -170,15 +170,18 @@ class Gen:
         """external forces on non-virtual movable bodies; needs the rbdl body count -> computed from ops"""
         r = self.r
         # rbdl movable body count: 1 (root) + per op: fixed 0; float 2; emu k; else 1
-        ids = []; nb = 1
+        ids = []; nb = 1; virt = []
         for o in ops:
             if o["fixed"]: ids.append(None); continue
             extra = 2 if o["kind"] == "float" else (o["dof"] if o["kind"] == "emu" else 1)
+            for v in range(nb, nb + extra - 1): virt.append(v)        # massless intermediate bodies of multi-dof emulation
             nb += extra; ids.append(nb - 1)
         if r.random() < 0.4: return "F 0"
         vals = [[0.0] * 6 for _ in range(nb)]
         for i in ids:
             if i is not None and r.random() < 0.6: vals[i] = [float(self.dy(-3, 3)) for _ in range(6)]
+        for i in virt:
+            if r.random() < 0.25: vals[i] = [float(self.dy(-3, 3)) for _ in range(6)]
         return "F %d %s" % (nb, " ".join(repr(x) for v in vals for x in v))
     def pt(self): return " ".join(fl(self.dy(-1, 1)) for _ in range(3))
 
